@@ -8,9 +8,9 @@
      sync      [d, idx, samestart, raised, short]                 SYNC observations              *)
 EXTENDS PPG, Json, IOUtils
 Trace == ndJsonDeserialize(IOEnv.IN_FILE)
-VARIABLES l, mem, bad
-tvars == <<l, mem, bad>>
-Init == l = 1 /\ mem = <<>> /\ bad = {}
+VARIABLES l, mem, bad, cfg
+tvars == <<l, mem, bad, cfg>>
+Init == l = 1 /\ mem = <<>> /\ bad = {} /\ cfg = <<>>
 Strip(c) == [verb |-> c.verb, ch |-> c.ch, val |-> c.val]
 SetClauses(e) ==
   (IF e.raised THEN {"raised-instead-of-clamping"} ELSE
@@ -43,7 +43,11 @@ ConfigClauses(e) ==
    (IF \E i \in 1..Len(e.cmds) : (e.cmds[i].verb = "PATT:DATA" /\ ~BlockOK(e.cmds[i])) \/ (e.cmds[i].verb # "PATT:DATA" /\ (~e.cmds[i].exact \/ ~CmdOK(Strip(e.cmds[i]))))
       THEN {"command-out-of-range"} ELSE {}) \cup
    (IF ConfigMustWarn(e.c, e.sel) /\ ~e.warned THEN {"warning"} ELSE {}))
-Clauses(e) == CASE e.kind = "set" -> SetClauses(e) [] e.kind = "flag" -> FlagClauses(e) [] e.kind = "config" -> ConfigClauses(e) [] e.kind = "set_data" -> DataClauses(e)
+GetSetClauses(e) ==
+  (IF e.raised THEN {"raised"} ELSE
+   (IF [i \in 1..Len(e.cmds) |-> [verb |-> e.cmds[i].verb, ch |-> e.cmds[i].ch, val |-> 0]] # GetQueries(e.q, e.sel) THEN {"queries-differ"} ELSE {}) \cup
+   (IF e.vals # GetVals(cfg, e.q, e.sel) THEN {"read-back-differs-from-instrument-state"} ELSE {}))
+Clauses(e) == CASE e.kind = "set" -> SetClauses(e) [] e.kind = "get" -> GetSetClauses(e) [] e.kind = "flag" -> FlagClauses(e) [] e.kind = "config" -> ConfigClauses(e) [] e.kind = "set_data" -> DataClauses(e)
                 [] e.kind = "get_data" -> GetClauses(e) [] e.kind = "sync" -> SyncClauses(e)
                 [] e.kind = "wipe" -> {}                 \* a fresh simulated instrument is attached
 Step == /\ l <= Len(Trace)
@@ -53,6 +57,10 @@ Step == /\ l <= Len(Trace)
            /\ mem' = IF e.kind = "set_data" /\ ~e.raised THEN Store(mem, e.cmds)
                       ELSE IF e.kind = "config" /\ ~e.raised THEN Store(mem, SelectSeq(e.cmds, LAMBDA c : c.verb = "PATT:DATA"))
                       ELSE IF e.kind = "wipe" THEN <<>> ELSE mem
+           \* the instrument settings follow the commands actually received
+           /\ cfg' = IF e.kind \in {"set", "flag", "config"} /\ ~e.raised
+                      THEN ApplySettings(cfg, [i \in 1..Len(e.cmds) |-> IF e.cmds[i].verb = "PATT:DATA" THEN [verb |-> "PATT:DATA", ch |-> 0, val |-> 0] ELSE Strip(e.cmds[i])])
+                      ELSE IF e.kind = "wipe" THEN <<>> ELSE cfg
         /\ l' = l + 1
 Spec == Init /\ [][Step]_tvars
 Done == (l = Len(Trace) + 1) => JsonSerialize(IOEnv.OUT_FILE, [n |-> Len(Trace), bad |-> bad])
